@@ -24,6 +24,21 @@ func mk(id, rule string, p Profile, quick, thorough int, mon func(fw.Case, []str
 		RealOnly: func(line string) bool { return strings.HasPrefix(line, "v2.drain") },
 		// `att=N` (southbound attempts) and `doc=<hex>` (the document the plugin saw) are observations of the real run for the monitors only
 		Match: func(line, realOut, twinOut string) bool { return attRe.ReplaceAllString(realOut, "") == twinOut },
+		OutcomeTags: func(c fw.Case, outs []string) []string {
+			n := 0
+			for _, o := range outs {
+				if strings.Contains(o, " ires=") {
+					n++
+				}
+			}
+			switch {
+			case n == 0:
+				return nil
+			case n < 4:
+				return []string{"real:pre-emptions-executed:1-3"}
+			}
+			return []string{"real:pre-emptions-executed:4+"}
+		},
 		Sigs: map[string]func(fw.Case, []string, string) bool{"dirtyValueHistory": dirtySig,
 			"textualPrefix": textualPrefixSig, "recreateUnderDeleted": recreateSig, "rollbackOfSubtreeDelete": rollbackSig, "refusalWriteLost": refusalWriteLostSig},
 	}
@@ -142,7 +157,26 @@ var C05P = mk("C05P",
 		"monitor: when a proposal is merged the leaves that become readable are, leaf for leaf, the document the plugin accepted for that proposal; a proposal the plugin rejected (or with no plugin) is never merged and its transaction is FAILED. Non-trivial = at least one write and a multi-target transaction or a rejecting verdict; distinct = distinct script.",
 	docP, 120, 4000, monitorC05)
 
+var interP = Profile{Targets: 2, Sets: 4, Faults: true, Verdicts: true, DevErrors: true, Injections: true,
+	Rollbacks: true, Serializable: true, Persistent: false, Deletes: true, MaxSteps: 150, Burst: true, Inter: true, FaultBias: true, CleanPct: 60}
+
+// C02I / C10I: real interleavings.  About every third invocation is pre-empted just before one of its
+// store writes or southbound requests by a whole invocation of another reconciler (another work-queue
+// partition) - on the real stores, so that the pre-empted invocation goes on with a stale snapshot and
+// its compare-and-set writes meet the versions the other one left; the twin interleaves the same two
+// invocations effect by effect.
+var C02I = mk("C02I",
+	"histories of 1-4 Sets/rollbacks on 1-2 targets with connection faults, verdicts, device errors, lost writes, in which about every third reconcile invocation is PRE-EMPTED before its k-th write (k=0..2) by a whole invocation of another controller / partition on the real stores (stale snapshots, version conflicts); the twin interleaves the same invocations effect by effect and every step compares the whole persistent state; "+
+		"monitor (state based): cursors never go back, merges in increasing index order, terms never decrease, a new master means term+1. Non-trivial = at least one write; distinct = distinct script.",
+	interP, 120, 4000, monitorInter)
+
+var C10I = mk("C10I",
+	"as C02I, registered a second time under C10: mastership and configuration reconcilers pre-empting each other and the proposal reconciler around connection faults; monitor (state based): terms never decrease, a new master means term+1, cursors never go back.",
+	interP, 100, 3000, monitorInter)
+
 func init() {
+	fw.Register(C02I)
+	fw.Register(C10I)
 	fw.Register(C05P)
 	fw.Register(C09Q)
 	fw.Register(C03)
